@@ -58,6 +58,7 @@ func (g *Gen) concHeavy(n int) {
 		g.end()
 		return
 	}
+	f0 := f
 	f = g.do(Step{Op: "WithRowNums", Recv: f, Dst: rid})
 	s := schemaOf(g.frame(f))
 	pat := g.oneOf([]string{"%k1%", "K%", "%a", "%K2%"})
@@ -74,6 +75,14 @@ func (g *Gen) concHeavy(n int) {
 			return Step{Op: "Filter", Recv: f, Clause: &cl}
 		case 4:
 			return Step{Op: "ToCSV", Recv: f}
+		case 6: // a filter that fails after an earlier sub clause selected rows (work left half done) ...
+			cl := Clause{K: "or", Subs: []Clause{{K: "leaf", Col: toBS("A"), CmpK: "str", Cmp: ">", Arg: &Val{T: "int", I: int64(g.rng.Intn(5) - 2)}},
+				g.oneOfClause([]Clause{{K: "leaf", Col: toBS("S"), CmpK: "str", Cmp: "like", Arg: &Val{T: "string", S: toBS("(%")}},
+					{K: "leaf", Col: toBS("nosuch"), CmpK: "str", Cmp: "=", Arg: &Val{T: "int", I: 1}}, {K: "leaf", Col: toBS("A"), CmpK: "str", Cmp: "bogus", Arg: &Val{T: "int", I: 1}}})}}
+			return Step{Op: "Filter", Recv: f, Clause: &cl}
+		case 7: // ... next to plain valid ones
+			cl := Clause{K: "leaf", Col: toBS("A"), CmpK: "str", Cmp: g.oneOf([]string{"<", ">=", "="}), Arg: &Val{T: "int", I: int64(g.rng.Intn(5) - 2)}}
+			return Step{Op: "Filter", Recv: g.oneOf2(f, f0), Clause: &cl}
 		default:
 			// each adds a column of its own to the same frame (itself the result of adding a column)
 			dst := "U" + itoa(g.rng.Intn(8))
@@ -89,11 +98,14 @@ func (g *Gen) concHeavy(n int) {
 			return Step{Op: "Apply", Recv: f, Instrs: []Instr{{Fn: FnRef{K: "fn1", Sym: "UpperS"}, Dst: toBS(dst), Src1: toBS("S")}}}
 		}
 	}
-	for batch := 0; batch < 6; batch++ {
+	for batch := 0; batch < 7; batch++ {
 		subs := []Step{}
 		focus := batch // most goroutines of a batch do the same kind of thing; every kind gets its batch
 		for j := 0; j < 8; j++ {
 			k := focus
+			if batch == 6 {
+				k = 6 + j%2
+			}
 			if g.rng.Intn(4) == 0 {
 				k = g.rng.Intn(6)
 			}
@@ -172,3 +184,5 @@ func genC11(g *Gen) {
 		g.end()
 	}
 }
+
+func (g *Gen) oneOfClause(cs []Clause) Clause { return cs[g.rng.Intn(len(cs))] }
